@@ -171,6 +171,10 @@ def verif_deps(src):
             for n in names:
                 if n.endswith((".hpp", ".h", ".cpp", ".txt", ".inc")):
                     fs.append(os.path.join(root, n))
+    for d in ("props", "fuzz", "conc"):       # shared headers next to the unit sources (geod_common.hpp, c13_common.hpp, ...)
+        dd = os.path.join(VERIF, d)
+        if os.path.isdir(dd):
+            fs += [os.path.join(dd, n) for n in sorted(os.listdir(dd)) if n.endswith((".hpp", ".h", ".inc"))]
     return fs
 
 
